@@ -22,11 +22,11 @@ META = {
                "closest-point query: concrete unevenly spaced points", "parameters": "all index pairs (discrete, fork), symbolic reals in [0,1] "
                "(interpolated, line)"},
     "outside": ["SplineInterpolatedCurve (scipy B-spline construction)", "CircleCurve / general AnalyticCurve lengths (99 "
-                "sqrt terms of trigonometric points)", "every FunctionCurveBase.get_closest_param (numerical minimiser with "
-                "no first-order contract) and curve-snapped edges on such curves"],
+                "sqrt terms of trigonometric points)", "FunctionCurveBase.get_closest_param beyond the descent contract of its minimiser (no "
+                "first-order optimality is claimed) and curve-snapped edges on analytic curves"],
     "assumptions": ["scipy.interpolate.interp1d(kind='linear') is modelled as piecewise-linear interpolation over the (symbolic) "
                     "break points; validated against scipy on concrete inputs each run"],
-    "must_reach": ["discrete", "interpolated", "line", "edge"],
+    "must_reach": ["discrete", "interpolated", "line", "edge", "analytic"],
 }
 
 BASE = [(0.0, 0.0, 0.0), (0.4, 0.3, 0.1), (1.5, 0.2, -0.2), (1.9, 1.1, 0.3), (2.1, 1.2, 0.9)]
@@ -78,6 +78,35 @@ def install():
     from symx import shims
     IP.np = shims._NpFacade()
     META.setdefault("stubs", []).append("curves.interpolators: scipy.interpolate.interp1d (linear) -> piecewise-linear model")
+    # --- scipy.optimize.minimize inside FunctionCurveBase.get_closest_param: descent contract ---
+    import scipy.optimize
+
+    import classy_blocks.construct.curves.curve as CU
+    from symx import stubs_opt
+
+    def contract_minimize(fun, x0, bounds=None, **kw):
+        sx = api.CUR
+        if sx is None or not sx.sym:
+            return scipy.optimize.minimize(fun, x0, bounds=bounds, **kw)
+        x0 = np.atleast_1d(np.asarray(x0, dtype=object))
+        x = stubs_opt.fresh_vector(len(x0), [tuple(b) for b in bounds] if bounds is not None else None, "tmin")
+        # the only thing a bounded descent method promises: inside the bounds, not worse than where it started
+        sx.assume(fun(x) <= fun(x0), "minimize: f(result) <= f(x0)")
+        return stubs_opt.Result(x)
+
+    class _Opt:
+        minimize = staticmethod(contract_minimize)
+
+        def __getattr__(self, name):
+            return getattr(scipy.optimize, name)
+
+    class _Sc2:
+        optimize = _Opt()
+    CU.scipy = _Sc2()
+    s2 = ("curves.curve: scipy.optimize.minimize (get_closest_param) -> descent contract: result inside the bounds with "
+          "f(result) <= f(x0)")
+    if s2 not in META["stubs"]:
+        META["stubs"].append(s2)
 
 
 def validate(seed):
@@ -101,6 +130,47 @@ def validate(seed):
             n += 1
     core.Ctx.cur = None
     return {"interp1d": n}
+
+
+def _s_curve(t):
+    """an S-shaped polynomial curve: several local minima of the distance to a query point"""
+    return np.array([t, t * t * t - 3 * t, 0 * t])
+
+
+ANALYTIC_BOUNDS = {"-2..2": (-2, 2), "0..2": (0, 2), "1..3": (1, 3), "-3..-1": (-3, -1)}
+
+
+def run_analytic_closest(sx, bounds):
+    """FunctionCurveBase.get_closest_param = coarse guess over the discretisation + bounded minimiser. Under the descent
+    contract of the minimiser the result is at least as good as every discretisation point, for every query point, iff the
+    coarse guess is the parameter of the nearest discretisation point."""
+    lo, hi = ANALYTIC_BOUNDS[bounds]
+    curve = cb.AnalyticCurve(_s_curve, (lo, hi))
+    tag = f"AnalyticCurve t -> (t, t^3 - 3t, 0) on [{lo}, {hi}]"
+    # queries near the curve: on both sides of it, close (0.01 x |tangent|) and farther away (0.1 x |tangent|), at 17
+    # unevenly spaced parameters; the query is chosen by the solver (fork), the minimiser's result is a symbolic real
+    queries = []
+    for k in range(17):
+        tk = Fraction(lo) + Fraction(hi - lo) * Fraction(k * k + 3 * k, 16 * 16 + 3 * 16)
+        px, py = tk, tk * tk * tk - 3 * tk
+        tx, ty = Fraction(1), 3 * tk * tk - 3
+        for eps in (Fraction(1, 100), Fraction(-1, 100), Fraction(1, 10), Fraction(-1, 10)):
+            queries.append((px - eps * ty, py + eps * tx))
+    qi = sx.choice("query", len(queries))
+    q = sx.vec(queries[qi][0], queries[qi][1], 0)
+    t = curve.get_closest_param(q)
+    sx.reach("analytic")
+    sx.prove(sx.all([t >= lo, t <= hi]), f"{tag}: the returned parameter is inside the bounds", "C16:analytic:closest:bounds")
+    if sx.sym:
+        from symx.shims import norm_model
+        dist = norm_model(curve.get_point(t) - q)
+        samples = [norm_model(p - q) for p in curve.discretize()]
+    else:
+        dist = float(np.linalg.norm(curve.get_point(t) - q))
+        samples = [float(np.linalg.norm(p - q)) + 1e-7 for p in curve.discretize(count=400)]
+    sx.prove(sx.all([dist <= d for d in samples]), f"{tag}: the returned parameter's point is at least as close to the query as "
+             "every sampled point of the curve", "C16:analytic:closest", info={"query": [float(x) for x in queries[qi]]})
+    return "analytic"
 
 
 def _points(sx, n, sym=(1, 2)):
@@ -263,6 +333,8 @@ def run_edge(sx):
 
 def jobs(tier, seed):
     js = [{"name": "discrete", "fn": "run_discrete"}, {"name": "discrete|closest", "fn": "run_closest"},
+          *[{"name": f"analytic|closest|bounds {b}", "fn": "run_analytic_closest", "params": {"bounds": b}}
+            for b in (ANALYTIC_BOUNDS if tier == "thorough" else ["-2..2", "1..3"])],
           {"name": "line", "fn": "run_line"}, {"name": "line|length", "fn": "run_line_length"}, {"name": "edge-on-discrete-curve", "fn": "run_edge"}]
     for n in ((3,) if tier == "quick" else (3, 4)):
         for eq in (True, False):
